@@ -233,7 +233,8 @@ theorem move_noskip (info : CompId → CompInfo) (w : WM) (F : SlotState) (hF : 
     exact ⟨by simp [colSlots, removeAll_nil], hbuf⟩
 
 theorem removeComp_unlocked_accepts (info : CompId → CompInfo) (w : WM) (F : SlotState) (hF : TempOnly F)
-    (t : Nat) (e : Handle) (c : CompId) (hl : w.isLocked = false) (hmk : MasksOk w) (hloc : LocIn w e) :
+    (t : Nat) (e : Handle) (c : CompId) (hl : w.isLocked = false) (hmk : MasksOk w)
+    (hloc : w.isValid e = true → LocIn w e) :
     accepts (live w F) (w.removeCompEvents e c) = some (live (w.removeComp info t e c).1 F) ∧
     (w.removeComp info t e c).1.buffers = w.buffers := by
   unfold WM.removeCompEvents WM.removeComp
@@ -247,7 +248,7 @@ theorem removeComp_unlocked_accepts (info : CompId → CompInfo) (w : WM) (F : S
       by_cases hc : (w.arch pi).mask.contains c = true
       · simp only [hc, Bool.not_true, Bool.false_eq_true, if_false]
         have := move_noskip info w F hF (Mask.erase (w.arch pi).mask c) (w.arch pi).shared e pi (w.locOf e).idx
-          hmk (maskOk_erase (hmk pi) c) (hloc pi hla)
+          hmk (maskOk_erase (hmk pi) c) (hloc hv pi hla)
         cases hx : (w.getArch (Mask.erase (w.arch pi).mask c) (w.arch pi).shared).1.externalMove info
           (w.getArch (Mask.erase (w.arch pi).mask c) (w.arch pi).shared).2 e pi (w.locOf e).idx [] with
         | none => rw [hx] at this; exact this
